@@ -340,6 +340,23 @@ func init() {
 		pureSpecMethods[name] = func(e *Engine, env *SpecEnv, a []Val) Val {
 			return e.pureExternalTerm(name, a, pureExternalResult(env, a, name))
 		}
+		if !strings.HasPrefix(name, "(") {
+			pureSpecFuncs[name] = func(e *Engine, env *SpecEnv, a []Val) Val {
+				var rt types.Type = tInt
+				if i := strings.LastIndex(name, "."); i > 0 {
+					if p := e.w.Pkgs[name[:i]]; p != nil && p.Types != nil {
+						if f, ok := p.Types.Scope().Lookup(name[i+1:]).(*types.Func); ok {
+							sig := f.Type().(*types.Signature)
+							rt = sig.Results()
+							if sig.Results().Len() == 1 {
+								rt = sig.Results().At(0).Type()
+							}
+						}
+					}
+				}
+				return e.pureExternalTerm(name, a, rt)
+			}
+		}
 	}
 	// slices.Clone: a fresh backing array with the same content (whole array value copied, offset kept)
 	H["slices.Clone"] = func(e *Engine, fc *fnCtx, st *State, c *ssa.CallCommon, a []Val, r types.Type) (Val, bool) {
@@ -847,6 +864,11 @@ func (e *Engine) decodedTerm(src string, t types.Type) Val {
 }
 
 var pureExternal = map[string]bool{
+	"github.com/tidwall/gjson.GetBytes":        true,
+	"github.com/tidwall/gjson.Escape":          true,
+	"(github.com/tidwall/gjson.Result).Exists": true,
+	"(github.com/tidwall/gjson.Result).String": true,
+	"github.com/tidwall/sjson.SetBytes":        true,
 	"(deps.dev/util/semver.System).Parse":              true,
 	"(deps.dev/util/semver.System).ParseConstraint":    true,
 	"(deps.dev/util/semver.System).Difference":         true,
